@@ -630,4 +630,313 @@ Proof.
   rewrite (name_idx_upper_id _ j U). unfold struct_lookup. now rewrite (by_name_hit st _ ce ND I).
 Qed.
 
+(* errors other than ChildNotFound are never reinterpreted as a positional path *)
+Lemma traverse_find_ok k f n e :
+  guard_Field n = false -> field_find_child_reference t f (upper n) = Ok e ->
+  field_traverse t lvl (S k) f n = Ok (TChild e).
+Proof. intros G H. cbn [field_traverse]. now rewrite G, H. Qed.
+
+Lemma traverse_find_err k f n x :
+  guard_Field n = false -> field_find_child_reference t f (upper n) = Err x -> x <> HL7 EChildNotFound ->
+  field_traverse t lvl (S k) f n = Err x.
+Proof.
+  intros G H N. cbn [field_traverse]. rewrite G, H.
+  destruct x as [c| | |]; try reflexivity. destruct c; try reflexivity. congruence.
+Qed.
+
+Lemma traverse_not_path k f n :
+  guard_Field n = false -> field_find_child_reference t f (upper n) = Err (HL7 EChildNotFound) ->
+  get_traversal_children (f_name f) n = None ->
+  field_traverse t lvl (S k) f n = Err (HL7 EChildNotFound).
+Proof. intros G H D. cbn [field_traverse]. now rewrite G, H, D. Qed.
+
+(* <datatype>_<j> itself is not a positional path when the datatype's name has no '_' *)
+Lemma component_name_not_path o d j : bmem US d = false -> get_traversal_children o (name_idx d j) = None.
+Proof.
+  intros H. unfold get_traversal_children.
+  assert (N : bmem US (upper d) = false).
+  { unfold bmem, mem, upper in *.
+    destruct (existsb (fun y : byte => beqb y US) (map bupper d)) eqn:X; [|reflexivity].
+    exfalso. apply existsb_exists in X. destruct X as [y [Iy Ey]]. apply in_map_iff in Iy.
+    destruct Iy as [z [<- Iz]]. destruct (beqb_spec (bupper z) US) as [Ez|]; [|discriminate].
+    assert (z = US) by (destruct z; try discriminate Ez; reflexivity). subst z.
+    assert (existsb (fun y : byte => beqb y US) d = true) by (apply existsb_exists; exists US; split; [exact Iz|reflexivity]).
+    congruence. }
+  rewrite name_idx_upper, bsplit_name_idx, (bsplit_nosep US (upper d) (nosep_of_bmem _ _ N)).
+  reflexivity.
+Qed.
+
+(* ---- the positional theorems in closed form ---- *)
+
+(* <field>_<j> under a complex field = the component filed under <datatype>_<j> *)
+Lemma positional_component f fname a b j d st ce :
+  f_name f = Some fname -> upper fname = fname -> bsplit US fname = [a; b] ->
+  f_dt f = Some d -> base t (Some d) = false -> is_varies (Some d) = false -> upper d = d ->
+  f_st f = Some st -> has_map_st st = true -> NoDup (map fst (st_by_name st)) ->
+  field_find_child_reference t f (name_idx fname j) = Err (HL7 EChildNotFound) ->
+  In (name_idx d j, ce) (st_by_name st) ->
+  field_getattr t lvl f (name_idx fname j) = Ok (TChild ce)
+  /\ field_getattr t lvl f (name_idx d j) = Ok (TChild ce).
+Proof.
+  intros Hn U S D B V Ud Hst M ND H I. unfold field_getattr.
+  assert (B' : base t (f_dt f) = false) by now rewrite D.
+  assert (V' : is_varies (f_dt f) = false) by now rewrite D.
+  split.
+  - rewrite (traverse_positional_comp 2 f fname a b j d Hn U S D B H).
+    now apply (traverse_by_name 1 f st d j ce).
+  - now apply (traverse_by_name 2 f st d j ce).
+Qed.
+
+(* an index beyond the components of the datatype designates nothing *)
+Lemma positional_no_component f fname a b j d :
+  f_name f = Some fname -> upper fname = fname -> bsplit US fname = [a; b] ->
+  f_dt f = Some d -> base t (Some d) = false -> upper d = d -> bmem US d = false ->
+  field_find_child_reference t f (name_idx fname j) = Err (HL7 EChildNotFound) ->
+  forall x, field_find_child_reference t f (name_idx d j) = Err x -> not_such x ->
+  field_getattr t lvl f (name_idx fname j) = Err x.
+Proof.
+  intros Hn U S D B Ud Hd H x Hx NS. unfold field_getattr.
+  rewrite (traverse_positional_comp 2 f fname a b j d Hn U S D B H).
+  pose proof (guard_Field_idx d j Ud) as G. pose proof (name_idx_upper_id d j Ud) as Up.
+  destruct NS as [->| ->].
+  - apply traverse_not_path; [exact G|now rewrite Up|now apply component_name_not_path].
+  - apply traverse_find_err; [exact G|now rewrite Up|discriminate].
+Qed.
+
+(* <field>_<j>_<k> = the subcomponent filed under <component datatype>_<k> of component j *)
+Lemma positional_subcomponent f fname a b j k d st ce i2 d2 c st2 se :
+  f_name f = Some fname -> upper fname = fname -> bsplit US fname = [a; b] ->
+  f_dt f = Some d -> base t (Some d) = false -> is_varies (Some d) = false -> upper d = d ->
+  f_st f = Some st -> has_map_st st = true -> NoDup (map fst (st_by_name st)) ->
+  field_find_child_reference t f (name_idx (name_idx fname j) k) = Err (HL7 EChildNotFound) ->
+  In (name_idx d j, ce) (st_by_name st) ->
+  ref_info (se_ref ce) = Some i2 -> i_dt i2 = Some d2 -> upper d2 = d2 ->
+  component_of_entry t lvl ce = Ok c -> c_st c = Some st2 -> has_map_st st2 = true ->
+  NoDup (map fst (st_by_name st2)) -> In (name_idx d2 k, se) (st_by_name st2) ->
+  field_getattr t lvl f (name_idx (name_idx fname j) k) = Ok (TGrand ce se)
+  /\ comp_getattr t c (name_idx d2 k) = Ok (TChild se).
+Proof.
+  intros Hn U S D B V Ud Hst M ND H I R Dt Ud2 C Hst2 M2 ND2 I2.
+  assert (B' : base t (f_dt f) = false) by now rewrite D.
+  assert (V' : is_varies (f_dt f) = false) by now rewrite D.
+  assert (G : comp_getattr t c (name_idx d2 k) = Ok (TChild se)).
+  { unfold comp_getattr. rewrite (guard_Component_idx d2 k Ud2), (name_idx_upper_id d2 k Ud2).
+    unfold comp_find_child_reference, complex_find_child_reference. rewrite Hst2, M2.
+    rewrite (name_idx_upper_id d2 k Ud2). unfold struct_lookup.
+    now rewrite (by_name_hit st2 _ se ND2 I2). }
+  split; [|exact G]. unfold field_getattr.
+  rewrite (traverse_positional_sub 2 f fname a b j k d Hn U S D B H).
+  rewrite (traverse_by_name 1 f st d j ce Hst M ND B' V' Ud I). cbn [bind].
+  unfold designated_component_ref. rewrite Hst, M, (by_name_hit st _ ce ND I). cbn [bind se_ref].
+  rewrite R, Dt, C. cbn [bind str_of_opt]. now rewrite G.
+Qed.
+
+(* a subcomponent index beyond those of the component designates nothing: the component's answer
+   (ChildNotFound / ChildNotValid) is the path's answer *)
+Lemma positional_no_subcomponent f fname a b j k d st ce i2 d2 c x :
+  f_name f = Some fname -> upper fname = fname -> bsplit US fname = [a; b] ->
+  f_dt f = Some d -> base t (Some d) = false -> is_varies (Some d) = false -> upper d = d ->
+  f_st f = Some st -> has_map_st st = true -> NoDup (map fst (st_by_name st)) ->
+  field_find_child_reference t f (name_idx (name_idx fname j) k) = Err (HL7 EChildNotFound) ->
+  In (name_idx d j, ce) (st_by_name st) ->
+  ref_info (se_ref ce) = Some i2 -> i_dt i2 = Some d2 ->
+  component_of_entry t lvl ce = Ok c -> comp_getattr t c (name_idx d2 k) = Err x ->
+  field_getattr t lvl f (name_idx (name_idx fname j) k) = Err x.
+Proof.
+  intros Hn U S D B V Ud Hst M ND H I R Dt C G.
+  assert (B' : base t (f_dt f) = false) by now rewrite D.
+  assert (V' : is_varies (f_dt f) = false) by now rewrite D.
+  unfold field_getattr.
+  rewrite (traverse_positional_sub 2 f fname a b j k d Hn U S D B H).
+  rewrite (traverse_by_name 1 f st d j ce Hst M ND B' V' Ud I). cbn [bind].
+  unfold designated_component_ref. rewrite Hst, M, (by_name_hit st _ ce ND I). cbn [bind se_ref].
+  rewrite R, Dt, C. cbn [bind str_of_opt]. now rewrite G.
+Qed.
+
+(* a field of base datatype: <field>_1 is its one component; every other index, and every
+   subcomponent path, designates nothing *)
+Lemma positional_base f fname a b d :
+  f_name f = Some fname -> upper fname = fname -> bsplit US fname = [a; b] ->
+  f_dt f = Some d -> base t (Some d) = true -> bmem US d = false -> upper d = d -> guard_Field d = false ->
+  field_getattr t lvl f (name_idx fname 1) = Ok (TChild (mk_sentry d (SLeaf (mk_info (Some d) None None (-1))) CMP))
+  /\ (forall j, j <> 1 -> field_getattr t lvl f (name_idx fname j) = Err (HL7 EChildNotFound))
+  /\ (forall j k, field_getattr t lvl f (name_idx (name_idx fname j) k) = Err (HL7 EChildNotFound)).
+Proof.
+  intros Hn U S D B Hd Ud G. unfold field_getattr. repeat split.
+  - rewrite (traverse_positional_base 2 f fname a b 1 d Hn U S D B Hd). cbn [Nat.eqb].
+    apply traverse_find_ok; [exact G|]. rewrite Ud. unfold field_find_child_reference. rewrite D, B.
+    cbn [opt_eqb]. now rewrite streqb_refl.
+  - intros j Hj. rewrite (traverse_positional_base 2 f fname a b j d Hn U S D B Hd).
+    destruct (Nat.eqb_spec j 1); [contradiction|reflexivity].
+  - intros j k. now apply (traverse_positional_base_sub 2 f fname a b j k d).
+Qed.
+
+(* ------------------------------------------------------------------ *)
+(* the parents the library builds from an entry's reference             *)
+
+Lemma mk_field_with_ref n r st :
+  parse_structure t r = Ok st ->
+  mk_field t lvl (Some n) None (Some r) = Ok (mk_field_rec (Some (upper n)) (st_dt (Some st)) (Some st) []).
+Proof.
+  intros P. unfold mk_field. cbn [is_varies opt_eqb andb]. unfold structure_for. rewrite P. cbn [bind].
+  reflexivity.
+Qed.
+
+Lemma mk_component_with_ref n r st d :
+  parse_structure t r = Ok st -> st_dt (Some st) = Some d ->
+  valid_child_name (Some n) (Some (unbs "VARIES")) = false -> n <> [] ->
+  (is_strict lvl = true -> streqb (upper n) d = false) ->
+  mk_component t lvl (Some n) None (Some r) = Ok (mk_comp (Some (upper n)) (Some d) (Some st) []).
+Proof.
+  intros P Dt NV NE Hs. unfold mk_component, canbevaries. cbn [is_varies opt_eqb andb].
+  rewrite andb_false_r. cbn [bind andb negb]. rewrite NV. unfold structure_for. rewrite P. cbn [bind].
+  rewrite Dt. destruct n as [|c n']; [congruence|]. cbn [upper map negb andb]. rewrite !andb_false_r.
+  cbn [bind opt_eqb andb].
+  destruct (is_strict lvl) eqn:L.
+  - specialize (Hs eq_refl). cbn [upper map] in Hs. rewrite Hs. reflexivity.
+  - now rewrite andb_false_r.
+Qed.
+
 End Facts.
+
+(* ------------------------------------------------------------------ *)
+(* what the finite obligations (Model/Resolve.v, section Oblig) mean    *)
+
+Lemma flat_map_nil {A B} (f : A -> list B) l : flat_map f l = [] -> forall x, In x l -> f x = [].
+Proof.
+  induction l as [|a l IH]; cbn [flat_map]; [intros _ x []|].
+  intros H x [<-|I]; apply app_eq_nil in H; destruct H as [H1 H2]; [exact H1|now apply IH].
+Qed.
+
+Lemma is_nil_true {A} (l : list A) : is_nil l = true -> l = [].
+Proof. destruct l; [reflexivity|discriminate]. Qed.
+
+Section ObligFacts.
+Variable t : tables.
+Variable lvl : level.
+
+Lemma check_rows_ok label get res es :
+  fst (check_rows label get res es) = [] -> forall e, In e es -> fst (row_check get res es e) = true.
+Proof.
+  unfold check_rows. cbn [fst]. intros H e I.
+  pose proof (flat_map_nil _ _ H (e, row_check get res es e)) as F.
+  cbn [fst snd] in F. destruct (fst (row_check get res es e)); [reflexivity|].
+  discriminate F. apply in_map_iff. exists e. auto.
+Qed.
+
+Lemma reaches_spec get key n : reaches get key n = true -> exists e, get n = Ok (TChild e) /\ se_name e = key.
+Proof.
+  unfold reaches. destruct (get n) as [[|e0|]|]; try discriminate. intros H. exists e0. split; [reflexivity|].
+  now apply streqb_eq.
+Qed.
+
+(* one row of a parent whose rows all passed: its HL7 name, in any letter case, reaches it; so does
+   its long name unless the row is exempt *)
+Definition row_reached (get : str -> result target) (res : list str) (es : list sentry) (e : sentry) : Prop :=
+  upper (se_name e) = se_name e /\ smem (se_name e) res = false /\
+  (exists e', get (se_name e) = Ok (TChild e') /\ se_name e' = se_name e) /\
+  (forall l, classify_long res es e = LOk l ->
+     smem (upper l) res = false /\ exists e', get l = Ok (TChild e') /\ se_name e' = se_name e).
+
+Lemma classify_ok_reserved res es e l : classify_long res es e = LOk l -> smem (upper l) res = false.
+Proof.
+  unfold classify_long. destruct (long_of e) as [l0|]; [|discriminate].
+  destruct (Nat.ltb _ _); [discriminate|]. destruct (existsb _ es); [discriminate|].
+  destruct (smem (upper l0) res) eqn:E; [discriminate|]. now intros [= <-].
+Qed.
+
+Lemma row_check_spec get res es e : fst (row_check get res es e) = true -> row_reached get res es e.
+Proof.
+  unfold row_check. cbn [fst]. intros H.
+  apply andb_prop in H. destruct H as [H Hl]. apply andb_prop in H. destruct H as [H Hr].
+  apply andb_prop in H. destruct H as [Hu Hk]. unfold row_reached.
+  split; [now apply streqb_eq|]. split; [now apply negb_true_iff|]. split; [now apply reaches_spec|].
+  intros l C. rewrite C in Hl. split; [eapply classify_ok_reserved, C|now apply reaches_spec].
+Qed.
+
+(* lifting a row to every letter case of its spellings, for the three kinds of parent *)
+Lemma reached_any_case p res es e :
+  forallb (fun a => smem a res) (cls_attrs_of p) = true ->
+  row_reached (resolve t lvl p) res es e ->
+  (forall n, upper n = se_name e -> exists e', resolve t lvl p n = Ok (TChild e') /\ se_name e' = se_name e) /\
+  (forall l, classify_long res es e = LOk l ->
+     forall n, upper n = upper l -> exists e', resolve t lvl p n = Ok (TChild e') /\ se_name e' = se_name e).
+Proof.
+  intros Sub (U & R & (e1 & G1 & N1) & L). split.
+  - intros n En. exists e1. split; [|exact N1]. rewrite <- G1. apply resolve_case.
+    + now rewrite En, U.
+    + rewrite En. eapply not_reserved_not_attr; eauto.
+  - intros l C n En. destruct (L l C) as (Rl & e2 & G2 & N2). exists e2. split; [|exact N2].
+    rewrite <- G2. apply resolve_case; [exact En|]. rewrite En. eapply not_reserved_not_attr; eauto.
+Qed.
+
+(* ---- segments ---- *)
+Lemma check_segment_spec p :
+  fst (fst (check_segment t p)) = [] ->
+  exists s, parent_segment t (fst p) = Ok s /\ has_map_st (s_st s) = true /\ keys_ok (s_st s) = true /\
+            forall e, In e (entries (s_st s)) ->
+                      row_reached (resolve t lvl (PSeg s)) reserved_Segment (entries (s_st s)) e.
+Proof.
+  unfold check_segment. destruct (parent_segment t (fst p)) as [s|x]; [|discriminate].
+  destruct (has_map_st (s_st s) && keys_ok (s_st s)) eqn:E; [|discriminate].
+  apply andb_prop in E. destruct E as [M K]. cbn [fst]. intros H.
+  exists s. split; [reflexivity|]. split; [exact M|]. split; [exact K|]. intros e I. apply row_check_spec.
+  exact (check_rows_ok _ _ _ _ H e I).
+Qed.
+
+(* ---- complex datatypes seen from a field ---- *)
+Lemma check_struct_spec p :
+  fst (check_struct t lvl p) = [] ->
+  exists f st, struct_field t (fst p) = Ok f /\ f_st f = Some st /\ has_map_st st = true /\ keys_ok st = true /\
+               base t (f_dt f) = false /\ is_varies (f_dt f) = false /\
+               forall e, In e (entries st) -> row_reached (resolve t lvl (PField f)) reserved_Field (entries st) e.
+Proof.
+  unfold check_struct. destruct (struct_field t (fst p)) as [f|x]; [|discriminate].
+  destruct (f_st f) as [st|] eqn:Hst; [|discriminate].
+  destruct (has_map_st st && keys_ok st && negb (base t (f_dt f)) && negb (is_varies (f_dt f))) eqn:E; [|discriminate].
+  apply andb_prop in E. destruct E as [E V]. apply andb_prop in E. destruct E as [E B].
+  apply andb_prop in E. destruct E as [M K]. apply negb_true_iff in B, V. intros H.
+  exists f, st. split; [reflexivity|]. split; [exact Hst|]. split; [exact M|]. split; [exact K|].
+  split; [exact B|]. split; [exact V|]. intros e I. apply row_check_spec.
+  exact (check_rows_ok _ _ _ _ H e I).
+Qed.
+
+(* ---- component parents ---- *)
+Lemma check_component_spec p :
+  fst (check_component t lvl p) = [] ->
+  exists c, component_of_entry t lvl (mk_sentry (fst p) (snd p) CMP) = Ok c /\
+            forall st, c_st c = Some st -> has_map_st st = true ->
+                       keys_ok st = true /\
+                       forall e, In e (entries st) ->
+                                 row_reached (resolve t lvl (PComp c)) reserved_Component (entries st) e.
+Proof.
+  unfold check_component. destruct (component_of_entry t lvl _) as [c|x]; [|discriminate].
+  intros H. exists c. split; [reflexivity|]. intros st Hst M. rewrite Hst, M in H.
+  destruct (keys_ok st) eqn:K; [|discriminate]. split; [reflexivity|].
+  intros e I. apply row_check_spec. exact (check_rows_ok _ _ _ _ H e I).
+Qed.
+
+(* ---- the whole report ---- *)
+Lemma report_fine_parts :
+  report_fine (report t lvl) = true ->
+  (forall p, In p (real_segments t) -> fst (fst (check_segment t p)) = []) /\
+  (forall p, In p (t_structs t) -> fst (check_struct t lvl p) = []) /\
+  (forall p, In p (t_components t) -> fst (check_component t lvl p) = []) /\
+  (forall p, In p (field_parents t) -> field_parent_ok t p = true) /\
+  paths_clean t = true /\ structs_by_name t = true.
+Proof.
+  unfold report_fine, report. cbn [r_bad_segments r_bad_structs r_bad_components r_bad_field_parents r_paths_clean].
+  intros H. apply andb_prop in H. destruct H as [H P]. apply andb_prop in H. destruct H as [H F].
+  apply andb_prop in H. destruct H as [H C]. apply andb_prop in H. destruct H as [S T].
+  apply is_nil_true in S, T, C, F. apply andb_prop in P. destruct P as [P1 P2].
+  repeat split; try assumption.
+  - intros p I. apply (flat_map_nil _ _ S (check_segment t p)). now apply in_map.
+  - intros p I. apply (flat_map_nil _ _ T (check_struct t lvl p)). now apply in_map.
+  - intros p I. apply (flat_map_nil _ _ C (check_component t lvl p)). now apply in_map.
+  - intros p I. destruct (field_parent_ok t p) eqn:E; [reflexivity|]. exfalso.
+    assert (In p (filter (fun p => negb (field_parent_ok t p)) (field_parents t))) as I'
+        by (apply filter_In; split; [exact I|now rewrite E]).
+    apply (in_map fst) in I'. rewrite F in I'. destruct I'.
+Qed.
+
+End ObligFacts.
